@@ -141,7 +141,7 @@ def make_cfg(seed, i, typ):
         # reference run for the failpoint enumeration (LinAlgError in a Lagrange solve / 'model increases' verdict in the
         # acceptance test, at calls spread over the run): restart-heavy, growing and regression variants, bounds
         cfg = campaign.gen_cfg(rng, deterministic=True, restarts_p=0.85, term_p=0.0, reg_p=0.08, proj_p=0.0, maxfuns=(30, 50, 80), nmax=3,
-                               npt_p=0.5, allow=("restarts", "regression", "growing"))
+                               npt_p=0.5, allow=("restarts", "regression", "growing", "rare"))
         if cfg.get("reg"):
             cfg["args"]["maxfun"] = min(cfg["args"]["maxfun"], 25)
         if i % 4 == 1:
